@@ -7,7 +7,7 @@ import gen_pil
 
 
 def population(rng, quick):
-    doms = [[n, L, k] for n in ("a", "a*", "b", "aa", "A", "b-1_x") for L in (5, 7) for k in (0, 1, 2)]
+    doms = [[n, L, k] for n in ("a", "a*", "b", "aa", "A", "b-1_x") for L in (5, 7, 9, 10) for k in (0, 1, 2, 3, 4)]
     structs = [s for s in gs.all_wf(4 if quick else 5)]
     cplx = []
     for s in structs:
@@ -44,7 +44,7 @@ def run(ctx):
         for kind, specs in pop.items():
             for _ in range(n_pairs):
                 a = rng.choice(specs)
-                b = rng.choice(specs) if rng.random() < 0.8 else list(a[:-1]) + [rng.randrange(2)]
+                b = rng.choice(specs) if rng.random() < 0.7 else list(a[:-1]) + [rng.randrange(5 if kind == "domain" else 2)]
                 if kind == "complex" and rng.random() < 0.3:
                     # the same complex in another rotation, the first in the base class, the second in a subclass
                     rots = gen_pil.rotations(a[0], a[1])
